@@ -1281,7 +1281,7 @@ fn deliver_short(conn: &mut Connection, now: Instant, remote: SocketAddr, pn: u8
     conn.handle_event(ConnectionEvent(ConnectionEventInner::Datagram(DatagramConnectionEvent { now, remote, ecn: None, first_decode, remaining })));
 }
 
-/// Native replay body for the E2 queries `e2_handle_event_credits_own_path_only` / `e2_handle_coalesced_credits_own_path_only`
+/// Native replay body for the E2 queries `e2_handle_event_credits_own_path_only` / `e2_handle_coalesced_credit`
 /// (C07 / C15), on an established server that permits migration, currently talking to `home`.  The send budget of
 /// an unvalidated path is three times what was received FROM THAT ADDRESS: datagrams that arrive from somewhere
 /// else and do not make the connection migrate - undecryptable ones (anyone who has seen the connection ID can
@@ -1328,6 +1328,14 @@ pub fn foreign_datagram_credit_native(mode: u8) -> u32 {
             deliver(&mut conn, home, &v);
             assert!(conn.path.total_recvd == before + v.len() as u64, "a datagram from the path's own address was not credited in full");
             4
+        }
+        4 => {
+            // coalesced packets from the path's own address are credited in full, once
+            let mut v = vec![0xe0u8, 0, 0, 0, 1, 8, 2, 2, 2, 2, 2, 2, 2, 2, 8, 3, 3, 3, 3, 3, 3, 3, 3, 5, 7, 0x01, 0, 0, 0];
+            v.extend_from_slice(&[0x40, 2, 2, 2, 2, 2, 2, 2, 2, 11, 0x01, 0, 0, 0]);
+            deliver(&mut conn, home, &v);
+            assert!(conn.path.total_recvd == before + v.len() as u64, "a {}-byte coalesced datagram from the path's own address was credited as {} bytes", v.len(), conn.path.total_recvd - before);
+            16
         }
         _ => {
             let v = vec![0x40u8, 2, 2, 2, 2, 2, 2, 2, 2, 12, 0x01, 0, 0, 0];
